@@ -29,6 +29,17 @@ META = dict(
 ALL = -1
 
 
+class TaskAbort(BaseException):
+    """A task failure that is not an Exception subclass."""
+
+
+def exc_class(kind):
+    """How a task fails: 0/False = it succeeds; 1/True RuntimeError; 2 a BaseException subclass that is not an
+    Exception; 3 asyncio.CancelledError (BaseException since 3.8); 4 SystemExit (only used in pool threads)."""
+    import asyncio
+    return {1: RuntimeError, 2: TaskAbort, 3: asyncio.CancelledError, 4: SystemExit}[int(kind)]
+
+
 # ============================================================================ (a) Team with memory workers
 
 class TeamRun:
@@ -142,13 +153,14 @@ class TeamRun:
             self.nT += 1
             t = self.nT
             raises = bool(op[1])
+            exc = exc_class(op[1]) if raises else None
 
             def task():
                 self.current_task = t
                 self.sub.append(["run", t])
                 self.ran.append(t)
                 if raises:
-                    raise RuntimeError("task %d" % t)
+                    raise exc("task %d" % t)
             task.t = t
             task.raises = raises
             self.tasks = getattr(self, "tasks", {})
@@ -256,7 +268,7 @@ def state_key(r, used):
             r.limit, tuple(r.ran), tuple(sorted(used.items())))
 
 
-def explore(limit, budget, raises=(False, True), max_runs=None, max_depth=40, coordinator="memory"):
+def explore(limit, budget, raises=(0, 2, 1, 3), max_runs=None, max_depth=40, coordinator="memory"):
     """State-hashed depth-first enumeration of all schedules of the real Team within a budget of public calls
     (do/grow/shrink/setlimit/quit counts) -- coordinator and worker steps are unbounded but only taken when they
     do something.  Every reachable state of the real objects is visited and every op is tried from it once.
@@ -336,7 +348,7 @@ def random_history(rng, n):
         if i == quit_at:
             ops.append(("quit",))
         elif r < 0.22:
-            ops.append(("do", rng.random() < 0.3))
+            ops.append(("do", rng.choice([1, 2, 3]) if rng.random() < 0.3 else 0))
         elif r < 0.27:
             ops.append(("grow", rng.choice([1, 1, 2, 3])))
         elif r < 0.33:
@@ -447,7 +459,7 @@ def check_team(ctx):
 
 def pool_run(seed, script, maxthreads, minthreads=0, timeout=30.0):
     """Run the real ThreadPool along `script` (client thread) and return the event log.
-    script items: ("start",) ("submit", raises, spin) ("adjust", max) ("sleep", k) ("stop",)"""
+    script items: ("start",) ("submit", failure kind (see exc_class), spin) ("adjust", max) ("sleep", k) ("stop",)"""
     import random
     import sys
     import threading
@@ -489,11 +501,11 @@ def pool_run(seed, script, maxthreads, minthreads=0, timeout=30.0):
                 time.sleep(0)
             ev({"e": "end", "t": t, "th": num(), "ok": not raises})
             if raises:
-                raise RuntimeError("task %d" % t)
+                raise exc_class(raises)("task %d" % t)
             return t * 7
 
         def on_result(success, value):
-            good = (value == t * 7) if success else (getattr(value, "type", None) is RuntimeError)
+            good = (value == t * 7) if success else (bool(raises) and getattr(value, "type", None) is exc_class(raises))
             if not good:
                 ev({"e": "badvalue", "t": t, "th": num(), "ok": bool(success)})
             ev({"e": "result", "t": t, "th": num(), "ok": bool(success)})
@@ -548,10 +560,10 @@ def pool_script(rng):
     n = rng.randint(3, 14)
     script = []
     for _ in range(rng.choice([0, 0, 1, 3])):
-        script.append(("submit", rng.random() < 0.3, rng.choice([0, 1, 5])))
+        script.append(("submit", rng.choice([1, 2, 3, 4]) if rng.random() < 0.3 else 0, rng.choice([0, 1, 5])))
     script.append(("start",))
     for _ in range(n):
-        script.append(("submit", rng.random() < 0.3, rng.choice([0, 0, 1, 3, 20])))
+        script.append(("submit", rng.choice([1, 2, 3, 4]) if rng.random() < 0.3 else 0, rng.choice([0, 0, 1, 3, 20])))
         r = rng.random()
         if r < 0.25:
             script.append(("sleep", rng.choice([1, 5, 50])))
@@ -559,7 +571,7 @@ def pool_script(rng):
             script.append(("adjust", rng.choice([m for m in (1, 2, 3, 4) if m >= minthreads])))
     script.append(("stop",))
     if rng.random() < 0.5:
-        script.append(("submit", False, 0))      # refused: must never run
+        script.append(("submit", 0, 0))      # refused: must never run
         script.append(("sleep", 20))
     return script, maxthreads, minthreads
 
@@ -569,6 +581,11 @@ def pool_fingerprint(t, reached):
     if reached >= len(ev):
         return "pool/trace-incomplete"
     e = ev[reached]
+    # classification only: a task that ended but whose outcome was never passed to onResult before this event
+    ended = {x["t"] for x in ev[:reached] if x["e"] == "end"}
+    reported = {x["t"] for x in ev[:reached] if x["e"] == "result"}
+    if e["e"] in ("begin", "exit", "stop_ret") and ended - reported:
+        return "pool/%s/outcome-never-reported" % e["e"]
     return "pool/%s" % e["e"]
 
 
